@@ -1,0 +1,13 @@
+//go:build verif
+
+package standard
+
+import (
+	"net"
+
+	"github.com/cloudwego/hertz/pkg/network"
+)
+
+// VerifNewConn exposes newConn so that a verification harness can put the
+// real buffered connection on top of a scripted net.Conn.
+func VerifNewConn(c net.Conn, size int) network.Conn { return newConn(c, size) }
